@@ -35,3 +35,51 @@ Proof. repeat split; cbn; try lia; vm_compute; reflexivity. Qed.
 Lemma ts_old_refuted :
   of_type TTs (VTs 1709296245 123456789) /\ roundtrip false TTs (VTs 1709296245 123456789) = Ok (VTs 1709296245 0).
 Proof. split; [cbn; lia|reflexivity]. Qed.
+
+(* ---------- the schema cache never holds the column type of an earlier table of the same name *)
+Definition TInv (s : tstate) : Prop :=
+  (forall t, cw s = Some t -> actual s = Some t) /\ (forall t, cr s = Some t -> actual s = Some t).
+
+Lemma tstep_inv s o : TInv s -> TInv (fst (tstep true s o)).
+Proof.
+  intros I. pose proof I as [Hw Hr]. destruct o; cbn [tstep].
+  - destruct (actual s) eqn:A; cbn [fst]; [exact I|]. split; cbn; discriminate.
+  - destruct (actual s) eqn:A; cbn [fst]; [|exact I]. split; cbn; discriminate.
+  - destruct (actual s) as [t|] eqn:A; cbn [fst]; [|exact I]. split; cbn [cw cr actual].
+    + intros t' E. destruct (cw s) as [c|] eqn:C; inversion E; subst; [now apply Hw|reflexivity].
+    + exact Hr.
+  - destruct (actual s) as [t|] eqn:A; cbn [fst]; [|exact I]. split; cbn [cw cr actual].
+    + exact Hw.
+    + intros t' E. destruct (cr s) as [c|] eqn:C; inversion E; subst; [now apply Hr|reflexivity].
+  - split; cbn; [discriminate|exact Hr].
+  - split; cbn; [exact Hw|discriminate].
+Qed.
+
+Lemma trun_inv h : TInv (trun true h).
+Proof.
+  unfold trun. assert (I : TInv tinit) by (split; cbn; discriminate). revert I. generalize tinit.
+  induction h as [|o h IH]; intros s I; cbn; [assumption|]. apply IH. now apply tstep_inv.
+Qed.
+
+Lemma write_read_current h t v :
+  actual (trun true h) = Some t -> representable t v ->
+  snd (tstep true (fst (tstep true (trun true h) (TWrite v))) TRead) = Some (Ok v).
+Proof.
+  intros A R. destruct (trun_inv h) as [Hw Hr]. set (s := trun true h) in *.
+  assert (Ew : match cw s with Some c => c | None => t end = t).
+  { destruct (cw s) as [c|] eqn:C; [|reflexivity]. assert (actual s = Some c) by (apply Hw; first [exact C|reflexivity]). congruence. }
+  assert (Er : match cr s with Some c => c | None => t end = t).
+  { destruct (cr s) as [c|] eqn:C; [|reflexivity]. assert (actual s = Some c) by (apply Hr; first [exact C|reflexivity]). congruence. }
+  pose proof (roundtrip_ok t v R) as RT. unfold roundtrip in RT.
+  destruct (coerce_store true t v) as [c|] eqn:CS; [|discriminate].
+  assert (E1 : fst (tstep true s (TWrite v)) = mkT (Some t) (Some c) (Some t) (cr s)).
+  { cbn [tstep]. rewrite A. cbn [fst]. rewrite Ew, CS. reflexivity. }
+  rewrite E1. cbn [tstep actual held cr cw snd]. rewrite Er. f_equal. exact RT.
+Qed.
+
+Definition stale_history : list top := [TCreate TInt; TWrite (VInt 7); TRead; TDrop; TCreate TStr].
+Lemma stale_refuted :
+  actual (trun false stale_history) = Some TStr /\ representable TStr (VStr [48; 48; 55]%N) /\
+  snd (tstep false (fst (tstep false (trun false stale_history) (TWrite (VStr [48; 48; 55]%N)))) TRead)
+  <> Some (Ok (VStr [48; 48; 55]%N)).
+Proof. split; [reflexivity|]. split; [exact I|]. vm_compute. discriminate. Qed.
